@@ -67,11 +67,28 @@ def history(rng, n=None):
             steps.append(("snip", "try { print(%s); } catch e { print(type(e)); print(e.context); }\n" % name))
             defined.append(name)
             failing = True
-        elif c < 63 and r.chance(60):
+        elif c < 66 and r.chance(75):
             # a closure that captured a local of a frame / block / fiber killed by the uncaught error, used by later snippets
             fail = r.choice(["throw \"x\";", "nil + 1;", "[].pop();", "undefined_thing;"])
-            shape = r.below(4)
-            if shape == 0:
+            shape = r.below(8)
+            if shape == 4:
+                # the captured variable lives in a frame *below* the one that fails (one to three calls deeper)
+                depth = r.range(1, 3)
+                chain = "".join("fn fail%d_%d() { var pad%d = [%d]; %s }\n" % (k, d, d, d, ("fail%d_%d();" % (k, d + 1)) if d < depth else fail) for d in range(1, depth + 1))
+                body = chain + "fn holder%d() { var pad = 0; var loc = [%d]; cap%d = [|| loc, |v| { loc = v; return loc; }]; fail%d_1(); }\nholder%d();" % (k, k, k, k, k)
+            elif shape == 5:
+                # ... in a function of the main fiber that is waiting for a fiber which fails
+                body = ("fn holder%d() { var loc = [%d, \"m\"]; cap%d = [|| loc, |v| { loc = v; return loc; }]; var fb = Fiber.new(|| { var own = [1]; %s }); return fb.call(); }\nholder%d();"
+                        % (k, k, k, fail, k))
+            elif shape == 6:
+                # ... in a fiber in the middle of a chain of waiting fibers
+                body = ("var mid%d = Fiber.new(|| { var loc = [%d, \"mid\"]; cap%d = [|| loc, |v| { loc = v; return loc; }]; var inner = Fiber.new(|| { %s }); return inner.call(); });\n"
+                        "fn top%d() { var tl = \"top\"; return mid%d.call(); }\ntop%d();" % (k, k, k, fail, k, k, k))
+            elif shape == 7:
+                # ... two variables of two frames, the upper one failing
+                body = ("fn upper%d(g) { var up = [%d, \"u\"]; cap%d = [|| [g(), up], |v| { up = v; return up; }]; %s }\nfn lower%d() { var low = [\"low\"]; return upper%d(|| low); }\nlower%d();"
+                        % (k, k, k, fail, k, k, k))
+            elif shape == 0:
                 body = "fn mk%d() { var pad = 0; var loc = [%d]; cap%d = [|| loc, |v| { loc = v; return loc; }]; %s }\nmk%d();" % (k, k, k, fail, k)
             elif shape == 1:
                 body = "{ var loc = [%d]; var other = \"o\"; cap%d = [|| [loc, other], |v| { loc = v; return loc; }]; %s }" % (k, k, fail)
